@@ -11,7 +11,7 @@ the harness evaluates fmtquill::format("{fs}", value) and the case line carries 
 Monitor: the property itself (regex substitution of every %(attr:spec) by the oracle rendering,
 + "\\n"; line splitting) evaluated on the implementation's output, independent of the model."""
 import json, os, re, sys
-from vlib import Check, standard_proof_phase, correspond, ddmin, VERIF
+from vlib import Check, standard_proof_phase, correspond, ddmin, sh, VERIF, COQ
 
 PID = 'C12'
 MANIFEST = dict(
@@ -603,10 +603,16 @@ def norm_model(m, i):
 def run(tier):
     ck = Check(PID, tier)
     broken = standard_proof_phase(ck, 'Properties_C12')
+    q = tier == 'quick'
+    if not q:
+        # independent re-check of the compiled closure of the property file by coqchk
+        rc, so, se = sh(['coqchk', '-silent', '-o', '-Q', 'theories', 'Quill', '-Q', 'gen', 'QuillGen', 'Quill.Props.Properties_C12'], cwd=COQ, timeout=1200)
+        ok = rc == 0 and 'Axioms: <none>' in so
+        ck.tie.append({'name': 'coqchk -o Quill.Props.Properties_C12', 'ok': ok})
+        if not ok: broken.append('coqchk -o on Properties_C12 failed: ' + (so + str(se))[-300:])
     mexe, iexe = build(ck)
     if not mexe: return ck.finish(trusted=TRUSTED)
     orc = Oracle(ck, iexe); rng = ck.rng
-    q = tier == 'quick'
     objs = (gen_direct(rng, 3000 if q else 40000) + gen_malformed(rng, 800 if q else 10000)
             + gen_e2e(rng, 300 if q else 4000, 6 if q else 9) + gen_fmt(rng, 1000 if q else 15000)
             + gen_state(rng, 600 if q else 8000))
